@@ -34,21 +34,31 @@ def generated_configs(n, seed):
     out = []
     for i in range(n):
         nm = rng.choice([1, 2, 3, 3])
+        if i % 6 == 0:
+            nm = 1          # exactly one market with a stochastic fundamental (degenerate 1 x 1 correlation block)
+        elif i % 6 == 1:
+            nm = 2          # one stochastic and one constant fundamental
+        elif i % 6 == 2:
+            nm = 3          # two index markets over overlapping components, one arbitrageur
         names = ["S%d" % j for j in range(nm)]
         cfg = {"simulation": {"markets": list(names), "agents": ["F", "MM"], "sessions": [], "fundamentalCorrelations": {"pairwise": []}}}
         for j, nme in enumerate(names):
             cfg[nme] = {"class": "Market", "tickSize": rng.choice([0.01, 0.00001, 1.0]), "marketPrice": 300.0 + 10 * j,
                         "fundamentalVolatility": rng.choice([0.0, 0.001, 0.01, 0.005]), "fundamentalDrift": rng.choice([0.0, 0.0001]),
                         "outstandingShares": 1000}
+        if i % 6 == 0:
+            cfg[names[0]]["fundamentalVolatility"] = 0.01
+        elif i % 6 == 1:
+            cfg[names[0]]["fundamentalVolatility"], cfg[names[1]]["fundamentalVolatility"] = 0.0, 0.005
         vol_names = [x for x in names if cfg[x]["fundamentalVolatility"] > 0]
         if len(vol_names) >= 2 and i % 2 == 0:
             cfg["simulation"]["fundamentalCorrelations"]["pairwise"].append([vol_names[0], vol_names[1], rng.choice([0.5, -0.3, 0.9])])
         allm = list(names)
-        if nm >= 2 and rng.random() < 0.6:
+        if nm >= 2 and (rng.random() < 0.6 or i % 6 == 2):
             cfg["IDX"] = {"class": "IndexMarket", "tickSize": 0.01, "marketPrice": 305.0, "markets": list(names)}
             cfg["simulation"]["markets"].append("IDX")
             allm.append("IDX")
-            if nm == 3 and rng.random() < 0.7:
+            if nm == 3 and (rng.random() < 0.7 or i % 6 == 2):
                 # two index markets over overlapping components, one arbitrageur with access to both
                 cfg["IDX"]["markets"] = names[:2]
                 cfg["IDX2"] = {"class": "IndexMarket", "tickSize": 0.01, "marketPrice": 318.0, "markets": names[1:]}
@@ -73,6 +83,9 @@ def generated_configs(n, seed):
             ags = cfg["simulation"]["agents"]
             ags.insert(ags.index("F") + rng.choice([0, 1]), "F2")
         evs = []
+        if rng.random() < 0.7:
+            cfg["UE"] = {"class": "DetEvent"}          # a user-written event hooked on everything (registered by the worker)
+            evs.append("UE")
         if rng.random() < 0.7:
             cfg["FS"] = {"class": "FundamentalPriceShock", "target": names[0], "triggerTime": 3, "priceChangeRate": -0.1, "shockTimeLength": 2}
             evs.append("FS")
@@ -126,7 +139,7 @@ def check(prop, tier, seed, t0):
         name, cfg, sd = job
         base = run_worker(cfg, sd, "plain", 0)
         res = [("hashseed", run_worker(cfg, sd, "plain", 4242)), ("perturbed", run_worker(cfg, sd, "perturbed", 77)),
-               ("twice", run_worker(cfg, sd, "twice", 0))]
+               ("twice", run_worker(cfg, sd, "twice", 0)), ("nologger", run_worker(cfg, sd, "nologger", 0))]
         return name, sd, base, res
     with ThreadPoolExecutor(max_workers=8) as ex:
         results = list(ex.map(do, jobs))
@@ -138,7 +151,14 @@ def check(prop, tier, seed, t0):
             continue
         for mode, r in res:
             if "error" in r:
-                errors.append((name + ":" + mode, r["error"]))
+                # the configuration runs in a fresh process but not in this environment (after another run in the process,
+                # with the same settings object a second time ...): the outcome depends on something it must not depend on
+                lines.append({"a": base["digests"], "b": [-1], "smut": False})
+                meta.append({"config": name, "seed": sd, "against": mode + "-raised", "n": base["n"], "error": r["error"][-300:]})
+                continue
+            if mode == "nologger":
+                lines.append({"a": r["digests"], "b": r["digests2"], "smut": bool(r["smut"])})
+                meta.append({"config": name, "seed": sd, "against": "same-run-without-a-logger", "n": len(r["digests"])})
                 continue
             lines.append({"a": base["digests"], "b": r["digests"], "smut": bool(r["smut"] or base["smut"])})
             meta.append({"config": name, "seed": sd, "against": mode, "n": base["n"]})
